@@ -59,15 +59,15 @@ func (f *farEnd) readLoop() {
 
 func (f *farEnd) count() int { f.mu.Lock(); defer f.mu.Unlock(); return f.n }
 
-type fakeChannel struct {
+type pipeFakeChannel struct {
 	name string
 	conn net.Conn
 	opened int32
 }
 
-func (f *fakeChannel) String() string { return f.name }
-func (f *fakeChannel) Name() string   { return f.name }
-func (f *fakeChannel) OpenConnection() (net.Conn, error) {
+func (f *pipeFakeChannel) String() string { return f.name }
+func (f *pipeFakeChannel) Name() string   { return f.name }
+func (f *pipeFakeChannel) OpenConnection() (net.Conn, error) {
 	atomic.AddInt32(&f.opened, 1)
 	return streams.NewNamedConnection(f.conn, f.name), nil
 }
@@ -123,7 +123,7 @@ func (pipeComp) Exec(op string) (string, string, string, bool) {
 			ret <- streams.PipeData(streams.NewNamedStream(dNear, "down"), streams.NewNamedConnection(uNear, "up"))
 		}()
 	} else {
-		chans := server.Channels{&fakeChannel{name: "x", conn: uNear}}
+		chans := server.Channels{&pipeFakeChannel{name: "x", conn: uNear}}
 		go func() { ret <- server.VerifMultiplexToUpstream(chans, streams.NewNamedConnection(dNear, "down")) }()
 		_ = dFarC.SetDeadline(time.Now().Add(5 * time.Second))
 		if err := ms.SelectProtoOrFail("/x", dFarC); err != nil {
